@@ -200,3 +200,5 @@ def run(ctx):
             ctx.ob("R03.retire", o.construct, o.ok, o.site, o.detail)
     ctx.assume("fresh 64-bit random ids do not collide with stored ones (probabilistic; "
                "not decided)")
+
+EXPLANATION += ' Batch 6: columns that receive client text must have TEXT or no affinity.'
